@@ -39,8 +39,8 @@ def main(tier):
     prof = {"virtual": True, "fail_texts": texts, "p_garbage": 0.02, "p_term_restart": 0.02, "max_rcpts": 4,
             "senders": ["user", "user-remote", "empty", "empty", "double", "verp", "verp"],
             "lifetimes": [604800, 604800, 500, 0]}
-    res.merge(histrun.run(PROP, b, core.scaled(400 if quick else 6000), prof, ORACLES, salt="h"))
-    res.merge(histrun.run(PROP, b, core.scaled(100 if quick else 1500), dict(prof, qq_fail=0.3), ORACLES, salt="qf"))
+    res.merge(histrun.run(PROP, b, core.scaled(1500 if quick else 12000), prof, ORACLES, salt="h"))
+    res.merge(histrun.run(PROP, b, core.scaled(400 if quick else 3000), dict(prof, qq_fail=0.3), ORACLES, salt="qf"))
     rule = ("seeded histories on real qmail-send + qmail-queue in which recipients fail permanently (or temporarily past the queue "
             "lifetime) with failure texts from arbitrary bytes (blank lines, leading newlines, forged <x@y>: paragraphs, a forged "
             "'Below this line' marker, 8-bit, texts around REPORTMAX), senders ordinary / empty / #@[] / owner-@host-@[], random "
